@@ -165,6 +165,19 @@ class Engine:
                 res["audit_tail"] = raw
         else:
             res["undischarged"] = names
+        if ok and self.tier == "thorough":
+            # independent re-check of the compiled proof modules by leanchecker
+            import subprocess
+            try:
+                t1 = time.time()
+                cp = subprocess.run(["lake", "env", "leanchecker"] + list(p.prop_modules), cwd=lean.LEAN_DIR, stdout=subprocess.PIPE,
+                                    stderr=subprocess.STDOUT, text=True, timeout=1200)
+                res["leanchecker"] = {"rc": cp.returncode, "s": round(time.time() - t1, 1), "tail": cp.stdout[-400:]}
+                if cp.returncode != 0:
+                    res["undischarged"] = names
+                    res["discharged"] = 0
+            except Exception as e:
+                res["leanchecker"] = {"rc": None, "error": str(e)}
         return res
 
     # -- running cases
@@ -357,6 +370,7 @@ class Engine:
                 "theorems": leanres["theorems"],
                 "axioms": leanres["axioms"],
                 "partial_theorems": p.partial_theorems,
+                "leanchecker": leanres.get("leanchecker"),
                 "build_ok": leanres["build_ok"], "build_s": leanres["build_s"], "pre_build_notes": leanres["notes"],
                 "evaluations": stats["evaluations"],
                 "distinct_nontrivial": len(stats["nontrivial"]),
